@@ -10,7 +10,9 @@ Theorems about `Model/Iter.lean`, the model of `AnalyticalPropagator.iter`, `Num
 `KeplerNum._iter`, `Ephem.iter`, `Date.range`, `Orbit.propagate/iter` re-binding and listener clearing.
 `⌊(stop − start)/step⌋` is always expressed by its two bracketing inequalities on `n`.
 Histories consist of `propagate`, `iter` (consumed fully, partly, not at all) and in-place modifications of an orbit by the user;
-`propagate_pure` holds for every history except, under Sgp4, those containing a modification (`Witness/C08.lean`).
+`propagate_pure_partial` holds for every such history and every propagator kind provided what Sgp4 compares of an orbit
+(`Sgp4._state`: coordinates, date, form, frame) determines the orbit value — false when a drag term is changed in place
+(`Witness/C08.lean: sgp4_stale_after_drag_change`, known finding).
 -/
 namespace BeyondVerif.C08
 open BeyondVerif.Iter
@@ -59,14 +61,6 @@ example : grid 5 30 3 = [5, 35, 65, 95] := by decide
 example : grid 5 (-30) 3 = [5, -25, -55, -85] := by decide
 
 /-! ## Date.range(start, stop, step, inclusive=True) -/
-
-theorem rangeCond_up {stop step : Int} (hs : 0 < step) : rangeCond stop step true = fun d => decide (d ≤ stop) := by
-  funext d; simp [rangeCond, hs]
-
-theorem rangeCond_down {stop step : Int} (hs : step < 0) : rangeCond stop step true = fun d => decide (d ≥ stop) := by
-  funext d
-  have : ¬ (0 < step) := by omega
-  simp [rangeCond, this]
 
 /-- clause "exactly start + k·step, k = 0…⌊(stop−start)/step⌋, first to last inclusive" for `Date.range`, forward;
 ∀ start stop step n fuel -/
@@ -173,170 +167,266 @@ theorem iter_zero_step (fuel : Nat) (epoch : Int) (selfStep : Option Int) (a : A
   unfold analyticalIter analyticalArgs
   simp [hd, hst, hstep, analyticalIterCore, dateRange]
 
-/-- **iter_dates_list** (analytical propagators): a non-empty explicit list is yielded as it is — any order, repetitions,
-dates before or after the epoch -/
-theorem iter_dates_list_partial (fuel : Nat) (epoch : Int) (selfStep : Option Int) (a : Args) (l : List Int)
-    (hd : a.dates = some (.list l)) (hne : l ≠ []) :
+/-- **iter_dates_list** (analytical propagators): an explicit list is yielded as it is — any order, repetitions,
+dates before or after the epoch, and nothing at all for the empty list -/
+theorem iter_dates_list (fuel : Nat) (epoch : Int) (selfStep : Option Int) (a : Args) (l : List Int)
+    (hd : a.dates = some (.list l)) :
     analyticalIter fuel epoch selfStep a = (true, ⟨l, .done⟩) := by
-  have : l.isEmpty = false := by cases l <;> simp_all
-  simp [analyticalIter, analyticalIterCore, hd, Dates.truthy, Dates.run, this, listRun_all yes l (fun _ _ => rfl)]
+  simp [analyticalIter, analyticalIterCore, hd, Dates.run, listRun_all yes l (fun _ _ => rfl)]
 
 example : analyticalIter 10 0 none { dates := some (.list [5, -3, 5]) } = (true, ⟨[5, -3, 5], .done⟩) := by decide
+example : analyticalIter 10 0 none { dates := some (.list []) } = (true, ⟨[], .done⟩) := by decide
 
 /-! ## Ephem.iter -/
 
-theorem interpOk_of {order : Nat} {pts : List Int} {first last d : Int} (hh : pts.head? = some first)
-    (hl : pts.getLast? = some last) (hord : order ≤ pts.length) (h1 : first ≤ d) (h2 : d ≤ last) : interpOk order pts d = true := by
-  simp [interpOk, hh, hl, hord, h1, h2]
-
-/-- `ephem_iter_dates_partial`: resampling an ephemeris (tabulated at `pts`, at least `order` points) over
-`start ≤ stop` inside its span with a positive step yields exactly the contract grid.
-Full statement (same conclusion for `stop < start` with a negative or flipped step) is FALSE of the current code:
-a backward range yields nothing (`Witness/C08.lean: ephem_backward_yields_nothing`). -/
-theorem ephem_iter_dates_partial (fuel n order : Nat) (pts : List Int) (first last : Int) (hh : pts.head? = some first)
-    (hl : pts.getLast? = some last) (hord : order ≤ pts.length) (start stop step : Int) (strict : Bool) (hs : 0 < step)
-    (hfs : first ≤ start) (hsl : stop ≤ last) (h1 : start + (n : Int) * step ≤ stop) (h2 : stop < start + ((n : Int) + 1) * step)
-    (hf : n + 1 < fuel) :
-    ephemIter fuel order pts none (some start) (some (.at stop)) (some step) strict = ⟨grid start step n, .done⟩ := by
+/-- **ephem_iter_dates**, forward: resampling an ephemeris (tabulated at `pts`, at least `order` points) over
+`start ≤ stop` (date or timedelta) inside its span with a positive step yields exactly the contract grid -/
+theorem ephem_iter_dates_forward (fuel n order : Nat) (pts : List Int) (first last : Int) (hh : pts.head? = some first)
+    (hl : pts.getLast? = some last) (hord : order ≤ pts.length) (start : Int) (st : Stop) (step : Int) (strict : Bool) (hs : 0 < step)
+    (hfs : first ≤ start) (hsl : st.resolve start ≤ last) (h1 : start + (n : Int) * step ≤ st.resolve start)
+    (h2 : st.resolve start < start + ((n : Int) + 1) * step) (hf : n + 1 < fuel) :
+    ephemIter fuel order pts none (some start) (some st) (some step) strict = ⟨grid start step n, .done⟩ := by
+  have h0 : (0 : Int) ≤ (n : Int) * step := Int.mul_nonneg (by exact_mod_cast Nat.zero_le n) (le_of_lt hs)
+  have hnb : ¬ st.resolve start < start := by omega
   have hnl : ¬ start < first := by omega
-  have hng : ¬ stop > last := by omega
+  have hng : ¬ st.resolve start > last := by omega
   unfold ephemIter
-  simp only [hh, hl, hnl, hng, Stop.resolve, if_false, Option.getD_none, Bool.false_eq_true]
-  apply loop_up _ start stop step n fuel hs h1 h2 _ hf
+  simp only [hnb, hh, hl, hnl, hng, if_false, Option.getD_none]
+  apply loop_up _ start _ step n fuel hs h1 h2 _ hf
   intro k hk
   have hw := grid_within_forward hs h1 (mem_grid.mpr ⟨k, hk, rfl⟩)
   exact interpOk_of hh hl hord (by omega) (by omega)
 
+/-- **ephem_iter_dates**, backward: stop before start, both inside the span; the step may be given positive (the code flips it)
+or negative: the iterator yields `start − k·|step|`, `k = 0 … n = ⌊(start−stop)/|step|⌋`, in this order -/
+theorem ephem_iter_dates_backward (fuel n order : Nat) (pts : List Int) (first last : Int) (hh : pts.head? = some first)
+    (hl : pts.getLast? = some last) (hord : order ≤ pts.length) (start : Int) (st : Stop) (step : Int) (strict : Bool) (hs : step ≠ 0)
+    (hlt : st.resolve start < start) (hsl : start ≤ last) (hfs : first ≤ st.resolve start)
+    (h1 : st.resolve start ≤ start + (n : Int) * (-|step|)) (h2 : start + ((n : Int) + 1) * (-|step|) < st.resolve start)
+    (hf : n + 1 < fuel) :
+    ephemIter fuel order pts none (some start) (some st) (some step) strict = ⟨grid start (-|step|) n, .done⟩ := by
+  have hnc : ¬ (start > last ∨ st.resolve start < first) := by omega
+  have hstep : (if step > 0 then -step else step) = -|step| := by
+    rcases lt_or_gt_of_ne hs with hneg | hpos
+    · rw [if_neg (by omega), abs_of_neg hneg]; ring
+    · rw [if_pos hpos, abs_of_pos hpos]
+  have hneg : -|step| < 0 := by have := abs_pos.mpr hs; omega
+  unfold ephemIter
+  simp only [hlt, if_true]
+  unfold ephemIterBackward
+  simp only [hh, hl, hnc, if_false, hstep]
+  apply loop_down _ start _ (-|step|) n fuel hneg h1 h2 _ hf
+  intro k hk
+  have hw := grid_within_backward hneg h1 (mem_grid.mpr ⟨k, hk, rfl⟩)
+  exact interpOk_of hh hl hord (by omega) (by omega)
+
 example : ephemIter 20 8 [0, 60, 120, 180, 240, 300, 360, 420, 480] none (some 30) (some (.at 400)) (some 90) true
     = ⟨[30, 120, 210, 300, 390], .done⟩ := by decide
+example : ephemIter 20 8 [0, 60, 120, 180, 240, 300, 360, 420, 480] none (some 400) (some (.at 30)) (some 90) true
+    = ⟨[400, 310, 220, 130, 40], .done⟩ := by decide
+example : ephemIter 20 8 [0, 60, 120, 180, 240, 300, 360, 420, 480] none (some 400) (some (.delta (-370))) (some (-90)) true
+    = ⟨[400, 310, 220, 130, 40], .done⟩ := by decide
 
 /-- without `step` an ephemeris yields its own points between start and stop (documented behaviour) -/
 theorem ephem_iter_own (fuel order : Nat) (pts : List Int) (first last : Int) (hh : pts.head? = some first)
-    (hl : pts.getLast? = some last) (start stop : Int) (strict : Bool) (hfs : first ≤ start) (hsl : stop ≤ last) :
+    (hl : pts.getLast? = some last) (start stop : Int) (strict : Bool) (hfs : first ≤ start) (hss : start ≤ stop) (hsl : stop ≤ last) :
     ephemIter fuel order pts none (some start) (some (.at stop)) none strict = ⟨ownPts start stop pts, .done⟩ := by
+  have hnb : ¬ stop < start := by omega
   have hnl : ¬ start < first := by omega
   have hng : ¬ stop > last := by omega
   unfold ephemIter
-  simp only [hh, hl, hnl, hng, Stop.resolve, if_false, Option.getD_none, Bool.false_eq_true]
+  simp only [Stop.resolve, hnb, hh, hl, hnl, hng, if_false, Option.getD_none]
 
-/-- **iter_dates_list** (ephemeris): a non-empty list of dates inside the span is yielded as it is -/
-theorem ephem_iter_dates_list_partial (fuel order : Nat) (pts : List Int) (first last : Int) (hh : pts.head? = some first)
-    (hl : pts.getLast? = some last) (hord : order ≤ pts.length) (l : List Int) (hne : l ≠ [])
+/-- … and, for a backward range, its own points from the last one not after start down to stop -/
+theorem ephem_iter_own_backward (fuel order : Nat) (pts : List Int) (first last : Int) (hh : pts.head? = some first)
+    (hl : pts.getLast? = some last) (start stop : Int) (strict : Bool) (hfs : first ≤ stop) (hss : stop < start) (hsl : start ≤ last) :
+    ephemIter fuel order pts none (some start) (some (.at stop)) none strict = ⟨ownPtsBack start stop pts.reverse, .done⟩ := by
+  have hnc : ¬ (start > last ∨ stop < first) := by omega
+  unfold ephemIter
+  simp only [Stop.resolve, hss, if_true]
+  unfold ephemIterBackward
+  simp only [hh, hl, hnc, if_false]
+
+example : ephemIter 20 8 [0, 60, 120, 180, 240] none (some 200) (some (.at 50)) none true = ⟨[180, 120, 60], .done⟩ := by decide
+
+/-- **iter_dates_list** (ephemeris): a list of dates inside the span is yielded as it is; nothing for the empty list -/
+theorem ephem_iter_dates_list (fuel order : Nat) (pts : List Int) (first last : Int) (hh : pts.head? = some first)
+    (hl : pts.getLast? = some last) (l : List Int) (hord : l ≠ [] → order ≤ pts.length)
     (hin : ∀ d ∈ l, first ≤ d ∧ d ≤ last) (start : Option Int) (stop : Option Stop) (step : Option Int) (strict : Bool) :
     ephemIter fuel order pts (some (.list l)) start stop step strict = ⟨l, .done⟩ := by
-  have : l.isEmpty = false := by cases l <;> simp_all
-  unfold ephemIter
-  simp only [Dates.truthy, this, Bool.not_false, if_true, Dates.run]
-  exact listRun_all _ l (fun d hd => interpOk_of hh hl hord (hin d hd).1 (hin d hd).2)
+  rw [ephemIter_dates]
+  exact listRun_all _ l (fun d hd => interpOk_of hh hl (hord (List.ne_nil_of_mem hd)) (hin d hd).1 (hin d hd).2)
 
-/-! ## NumericalPropagator.iter / KeplerNum._iter -/
+example : ephemIter 20 8 [0, 60, 120, 180, 240, 300, 360, 420, 480] (some (.list [])) none none none true = ⟨[], .done⟩ := by decide
 
-/-- what the code does for a forward range without `step`: it yields its own integration grid `start + k·h`
-up to the first point at or beyond stop (`m = ⌈(stop−start)/h⌉`) -/
-theorem numerical_iter_nostep (fuel order m : Nat) (epoch h : Int) (a : Args) (st : Stop) (hd : a.dates = none)
-    (hst : a.stop = some st) (hstep : a.step = none) (hstart : a.start ≠ some none) (hh : 0 < h)
-    (hfw : startOf epoch a ≤ st.resolve (startOf epoch a))
-    (hlo : ∀ k : Nat, k < m → startOf epoch a + (k : Int) * h < st.resolve (startOf epoch a))
-    (hhi : st.resolve (startOf epoch a) ≤ startOf epoch a + (m : Int) * h) (hf : m + 1 < fuel) :
-    numIter fuel order epoch h a = (true, ⟨grid (startOf epoch a) h m, .done⟩) := by
-  have h0 : (0 : Int) ≤ (m : Int) * h := Int.mul_nonneg (by exact_mod_cast Nat.zero_le m) (le_of_lt hh)
-  have hnf : ¬ (startOf epoch a > st.resolve (startOf epoch a) ∧ h > 0) := by omega
-  have hm := march_exact h (st.resolve (startOf epoch a)) m (startOf epoch a) fuel hlo hhi (by omega)
-  unfold numIter
-  unfold startOf at hnf hm hlo hhi hfw ⊢
-  simp only [hd, hst, hstep, Option.getD_none, Option.getD_some, hnf, if_false]
-  have hcore : numCore fuel order h ((a.start.getD (some epoch)).getD epoch)
-      (st.resolve ((a.start.getD (some epoch)).getD epoch)) none none
-      = ⟨grid ((a.start.getD (some epoch)).getD epoch) h m, .done⟩ := by
-    unfold numCore
-    cases hmm : march h (st.resolve ((a.start.getD (some epoch)).getD epoch)) fuel ((a.start.getD (some epoch)).getD epoch) with
-    | none => simp [hmm] at hm
-    | some more =>
-      simp only [hmm, Option.map_some, Option.some.injEq] at hm
-      simp only [hm]
-      unfold ephemIter
-      simp only [grid_head, grid_getLast, Bool.false_eq_true, if_false, Option.getD_none]
-      rw [ownPts_all]
-      intro d hd
-      obtain ⟨k, hk, rfl⟩ := mem_grid.mp hd
-      have := cast_mul_mono hk (le_of_lt hh)
-      have : (0 : Int) ≤ (k : Int) * h := Int.mul_nonneg (by exact_mod_cast Nat.zero_le k) (le_of_lt hh)
-      constructor <;> linarith
-  cases hs : a.start with
-  | none => simp only [hs] at hcore ⊢; rw [hcore]
-  | some v =>
-    cases v with
-    | none => exact absurd hs hstart
-    | some x => simp only [hs] at hcore ⊢; rw [hcore]
+/-! ## NumericalPropagator.iter / KeplerNum._iter
 
-/-- `numerical_iter_dates_partial` (no `step`): when the span is a whole number of integration steps the dates are the
-contract grid. Full statement (any stop) is FALSE of the current code: `Witness/C08.lean: numerical_beyond_stop`. -/
-theorem numerical_iter_dates_partial (fuel order m : Nat) (epoch h : Int) (a : Args) (stop : Int) (hd : a.dates = none)
-    (hst : a.stop = some (.at stop)) (hstep : a.step = none) (hstart : a.start ≠ some none) (hh : 0 < h)
-    (hgrid : stop = startOf epoch a + (m : Int) * h) (hf : m + 1 < fuel) :
-    numIter fuel order epoch h a = (true, ⟨grid (startOf epoch a) h m, .done⟩) := by
-  have h0 : (0 : Int) ≤ (m : Int) * h := Int.mul_nonneg (by exact_mod_cast Nat.zero_le m) (le_of_lt hh)
-  apply numerical_iter_nostep fuel order m epoch h a (.at stop) hd hst hstep hstart hh _ _ _ hf
-  · simp only [Stop.resolve, hgrid]; omega
-  · intro k hk
-    simp only [Stop.resolve, hgrid]
-    have : (k : Int) * h < (m : Int) * h := Int.mul_lt_mul_of_pos_right (by exact_mod_cast hk) hh
-    linarith
-  · simp only [Stop.resolve, hgrid]; exact le_refl _
+`h > 0` is the integration step (`propagator.step`), `m` ANY number of integration steps that reach stop and fill the
+interpolation order (it only says that `fuel`, the bound on the length of the model's loops, suffices: the code has no bound). -/
 
-example : numIter 20 8 0 60 { stop := some (.at 180) } = (true, ⟨[0, 60, 120, 180], .done⟩) := by decide
+/-- step of the iteration after defaulting: `step=` absent or `None` means the integration step of the propagator -/
+def stepOf (h : Int) (a : Args) : Int := (a.step.getD (some h)).getD h
 
-/-- `numerical_iter_dates_partial` (explicit positive `step`, forward): when at least `order` integration points are
-tabulated (`order ≤ m + 1`) the dates are `start + k·step` up to the END OF THE INTERNAL GRID `start + m·h`;
-this is the contract grid exactly when `stop = start + m·h`. Short spans (`m + 1 < order`) and backward ranges raise
-(`Witness/C08.lean`). -/
-theorem numerical_iter_step_partial (fuel order m n : Nat) (epoch h : Int) (a : Args) (stop step : Int) (hd : a.dates = none)
-    (hst : a.stop = some (.at stop)) (hstep : a.step = some (some step)) (hstart : a.start ≠ some none) (hh : 0 < h)
-    (hs : 0 < step) (hord : order ≤ m + 1) (hfw : startOf epoch a ≤ stop)
-    (hlo : ∀ k : Nat, k < m → startOf epoch a + (k : Int) * h < stop) (hhi : stop ≤ startOf epoch a + (m : Int) * h)
-    (h1 : startOf epoch a + (n : Int) * step ≤ startOf epoch a + (m : Int) * h)
-    (h2 : startOf epoch a + (m : Int) * h < startOf epoch a + ((n : Int) + 1) * step) (hf : m + 1 < fuel) (hf2 : n + 1 < fuel) :
-    numIter fuel order epoch h a = (true, ⟨grid (startOf epoch a) step n, .done⟩) := by
-  have h0 : (0 : Int) ≤ (m : Int) * h := Int.mul_nonneg (by exact_mod_cast Nat.zero_le m) (le_of_lt hh)
-  have hnf : ¬ (startOf epoch a > stop ∧ step > 0) := by omega
-  have hm := march_exact h stop m (startOf epoch a) fuel hlo hhi (by omega)
-  unfold numIter
-  unfold startOf at hnf hm hlo hhi h1 h2 hfw ⊢
-  simp only [hd, hst, hstep, Option.getD_some, Stop.resolve, hnf, if_false]
-  have hcore : numCore fuel order h ((a.start.getD (some epoch)).getD epoch) stop (some step) none
-      = ⟨grid ((a.start.getD (some epoch)).getD epoch) step n, .done⟩ := by
-    unfold numCore
-    cases hmm : march h stop fuel ((a.start.getD (some epoch)).getD epoch) with
-    | none => simp [hmm] at hm
-    | some more =>
-      simp only [hmm, Option.map_some, Option.some.injEq] at hm
-      simp only [hm]
-      unfold ephemIter
-      simp only [grid_head, grid_getLast, Bool.false_eq_true, if_false, Option.getD_none]
-      apply loop_up _ _ _ step n fuel hs h1 h2 _ hf2
-      intro k hk
-      have hw := grid_within_forward hs h1 (mem_grid.mpr ⟨k, hk, rfl⟩)
-      exact interpOk_of (grid_head _ _ _) (grid_getLast _ _ _) (by rw [grid_length]; exact hord) hw.1 hw.2
+/-- `NumericalPropagator.iter` with `stop`, without `dates`, `start` not passed as `None`: the call of `KeplerNum._iter` it ends in -/
+theorem numIter_eq_numCore (fuel order : Nat) (epoch h : Int) (a : Args) (st : Stop) (listening : Bool)
+    (hd : a.dates = none) (hst : a.stop = some st) (hstart : a.start ≠ some none) :
+    numIter fuel order epoch h a listening = numCore fuel order h (startOf epoch a) (st.resolve (startOf epoch a))
+      (if startOf epoch a > st.resolve (startOf epoch a) ∧ stepOf h a > 0 then some (-stepOf h a) else
+        match a.step with
+        | none => none
+        | some none => none
+        | some (some s) => some s) none listening := by
+  unfold numIter startOf stepOf
+  simp only [hd, hst]
   cases hs' : a.start with
-  | none => simp only [hs'] at hcore ⊢; rw [hcore]
+  | none => rfl
   | some v =>
     cases v with
     | none => exact absurd hs' hstart
-    | some x => simp only [hs'] at hcore ⊢; rw [hcore]
+    | some x => rfl
 
-example : numIter 40 8 0 60 { stop := some (.at 420), step := some (some 45) }
-    = (true, ⟨[0, 45, 90, 135, 180, 225, 270, 315, 360, 405], .done⟩) := by decide
+/-- **numerical_iter_dates**, forward. For every epoch, every start (before/at/after the epoch), every stop (date or timedelta)
+not before start — on the integration grid or not, any span however short —, every positive step (given, absent or `None`),
+with or without listeners: exactly `start + k·step`, `k = 0 … n = ⌊(stop−start)/step⌋`, in this order, none beyond stop. -/
+theorem numerical_iter_dates_forward (fuel order n m : Nat) (epoch h : Int) (a : Args) (st : Stop) (listening : Bool)
+    (hd : a.dates = none) (hst : a.stop = some st) (hstart : a.start ≠ some none) (hh : 0 < h) (hs : 0 < stepOf h a)
+    (h1 : startOf epoch a + (n : Int) * stepOf h a ≤ st.resolve (startOf epoch a))
+    (h2 : st.resolve (startOf epoch a) < startOf epoch a + ((n : Int) + 1) * stepOf h a)
+    (hm : st.resolve (startOf epoch a) ≤ startOf epoch a + (m : Int) * h) (hmo : order ≤ m + 1)
+    (hf : m < fuel) (hf2 : n + 1 < fuel) :
+    numIter fuel order epoch h a listening = (true, ⟨grid (startOf epoch a) (stepOf h a) n, .done⟩) := by
+  have h0 : (0 : Int) ≤ (n : Int) * stepOf h a := Int.mul_nonneg (by exact_mod_cast Nat.zero_le n) (le_of_lt hs)
+  have hfw : startOf epoch a ≤ st.resolve (startOf epoch a) := by omega
+  -- what `_iter` does with either form of `step`
+  have key : ∀ kstep : Option Int, (kstep = none ∧ stepOf h a = h) ∨ kstep = some (stepOf h a) →
+      numCore fuel order h (startOf epoch a) (st.resolve (startOf epoch a)) kstep none listening
+        = (true, ⟨grid (startOf epoch a) (stepOf h a) n, .done⟩) := by
+    intro kstep hk
+    obtain ⟨m', hreach, hord, hcore⟩ := numCore_forward fuel order h _ _ kstep none listening m hfw hm hmo hf
+    rw [hcore]
+    simp only [Option.isNone_none, if_true]
+    congr 1
+    rcases hk with ⟨rfl, hstep⟩ | rfl
+    · rw [ephemIter_own_up fuel order _ _ _ _ (grid_head _ _ _) (grid_getLast _ _ _) hreach, hstep]
+      rw [hstep] at h1 h2
+      have hnm : n ≤ m' := by
+        by_contra hc
+        have := cast_mul_mono (show m' + 1 ≤ n by omega) (le_of_lt hh)
+        push_cast at this
+        linarith
+      rw [ownPts_grid _ _ h hh m' _ n (le_refl _) hnm h1 h2]
+    · exact ephemIter_resample_up fuel order _ _ _ _ _ n (grid_head _ _ _) (grid_getLast _ _ _)
+        (by rw [grid_length]; exact hord (by simp)) hs hreach h1 h2 hf2
+  have hnf : ¬ (startOf epoch a > st.resolve (startOf epoch a) ∧ stepOf h a > 0) := by omega
+  rw [numIter_eq_numCore fuel order epoch h a st listening hd hst hstart, if_neg hnf]
+  unfold stepOf at key ⊢
+  cases hstep : a.step with
+  | none => simp only [hstep] at key ⊢; exact key none (Or.inl ⟨rfl, rfl⟩)
+  | some v =>
+    cases v with
+    | none => simp only [hstep] at key ⊢; exact key none (Or.inl ⟨rfl, rfl⟩)
+    | some s => simp only [hstep] at key ⊢; exact key (some s) (Or.inr rfl)
+
+/-- **numerical_iter_dates**, backward. Stop before start; the step may be absent (the integration step), given positive (the code
+flips it) or negative: exactly `start − k·|step|`, `k = 0 … n = ⌊(start−stop)/|step|⌋`, in this order, none beyond stop. -/
+theorem numerical_iter_dates_backward (fuel order n m : Nat) (epoch h : Int) (a : Args) (st : Stop) (listening : Bool)
+    (hd : a.dates = none) (hst : a.stop = some st) (hstart : a.start ≠ some none) (hh : 0 < h) (hs : stepOf h a ≠ 0)
+    (hlt : st.resolve (startOf epoch a) < startOf epoch a)
+    (h1 : st.resolve (startOf epoch a) ≤ startOf epoch a + (n : Int) * (-|stepOf h a|))
+    (h2 : startOf epoch a + ((n : Int) + 1) * (-|stepOf h a|) < st.resolve (startOf epoch a))
+    (hm : startOf epoch a + (m : Int) * (-h) ≤ st.resolve (startOf epoch a)) (hmo : order ≤ m + 1)
+    (hf : m < fuel) (hf2 : n + 1 < fuel) :
+    numIter fuel order epoch h a listening = (true, ⟨grid (startOf epoch a) (-|stepOf h a|) n, .done⟩) := by
+  have hneg : -|stepOf h a| < 0 := by have := abs_pos.mpr hs; omega
+  have key : numCore fuel order h (startOf epoch a) (st.resolve (startOf epoch a)) (some (-|stepOf h a|)) none listening
+        = (true, ⟨grid (startOf epoch a) (-|stepOf h a|) n, .done⟩) := by
+    obtain ⟨m', hreach, hord, hcore⟩ := numCore_backward fuel order h _ _ (-|stepOf h a|) listening m hlt hneg hm hmo hf
+    rw [hcore, ephemIter_dates]
+    congr 1
+    simp only [Dates.run, rangeCond_down hneg]
+    apply loop_down _ _ _ _ n fuel hneg h1 h2 _ hf2
+    intro k hk
+    have hw := grid_within_backward hneg h1 (mem_grid.mpr ⟨k, hk, rfl⟩)
+    refine interpOk_of (first := startOf epoch a + (m' : Int) * (-h)) (last := startOf epoch a) ?_ ?_ ?_ (by omega) (by omega)
+    · rw [List.head?_reverse, grid_getLast]
+    · rw [List.getLast?_reverse, grid_head]
+    · rw [List.length_reverse, grid_length]; exact hord
+  -- the step `_iter` receives: flipped when positive, as given when negative
+  rw [numIter_eq_numCore fuel order epoch h a st listening hd hst hstart]
+  rcases lt_or_gt_of_ne hs with hn | hp
+  · have hnf : ¬ (startOf epoch a > st.resolve (startOf epoch a) ∧ stepOf h a > 0) := by omega
+    rw [if_neg hnf]
+    rw [abs_of_neg hn, neg_neg] at key ⊢
+    unfold stepOf at hn key ⊢
+    cases hstep : a.step with
+    | none => simp [hstep] at hn; omega
+    | some v =>
+      cases v with
+      | none => simp [hstep] at hn; omega
+      | some s => simp only [hstep, Option.getD_some] at key ⊢; exact key
+  · rw [if_pos ⟨hlt, hp⟩]
+    rw [abs_of_pos hp] at key ⊢
+    exact key
+
+-- start at the epoch, stop 90 s later, integration step 60 s, no `step`: nothing beyond stop
+example : numIter 20 8 0 60 { stop := some (.at 90) } false = (true, ⟨[0, 60], .done⟩) := by decide
+-- a span of 200 s (4 integration points < order 8) resampled at 30 s
+example : numIter 20 8 0 60 { stop := some (.at 200), step := some (some 45) } false = (true, ⟨[0, 45, 90, 135, 180], .done⟩) := by decide
+-- backward, start before the epoch, step given positive
+example : numIter 20 8 0 60 { start := some (some (-30)), stop := some (.delta (-200)), step := some (some 45) } true
+    = (true, ⟨[-30, -75, -120, -165, -210], .done⟩) := by decide
+-- the hypotheses of the two theorems are satisfiable (m = 7 integration steps: 420 s ≥ 200 s and 8 points)
+example : numIter 20 8 0 60 { stop := some (.at 200), step := some (some 45) } false = (true, ⟨grid 0 45 4, .done⟩) :=
+  numerical_iter_dates_forward 20 8 4 7 0 60 _ (.at 200) false rfl rfl (by decide) (by decide) (by decide) (by decide) (by decide)
+    (by decide) (by decide) (by decide) (by decide)
+example : numIter 20 8 0 60 { stop := some (.delta (-200)) } false = (true, ⟨grid 0 (-60) 3, .done⟩) :=
+  numerical_iter_dates_backward 20 8 3 7 0 60 _ (.delta (-200)) false rfl rfl (by decide) (by decide) (by decide) (by decide)
+    (by decide) (by decide) (by decide) (by decide) (by decide) (by decide)
+
+/-- **iter_dates_list** (numerical propagator): an explicit list — any order, repetitions, dates before or after the epoch,
+of any length — is yielded as it is; nothing for the empty list. `m` integration steps cover the span of the list. -/
+theorem numerical_iter_dates_list (fuel order m : Nat) (epoch h : Int) (a : Args) (l : List Int) (listening : Bool)
+    (hd : a.dates = some (.list l)) (hspan : ∀ x ∈ l, ∀ y ∈ l, y ≤ x + (m : Int) * h) (hmo : order ≤ m + 1) (hf : m < fuel) :
+    (numIter fuel order epoch h a listening).2 = ⟨l, .done⟩ := by
+  unfold numIter
+  cases l with
+  | nil => simp only [hd]
+  | cons d r =>
+    simp only [hd]
+    have hlo := listMin_le d r
+    have hhi := le_listMax d r
+    obtain ⟨m', hreach, hord, hcore⟩ := numCore_forward fuel order h (listMin d r) (listMax d r) none (some (.list (d :: r))) listening m
+      (by have := hlo d (by simp); have := hhi d (by simp); omega) (hspan _ (listMin_mem d r) _ (listMax_mem d r)) hmo hf
+    rw [hcore, ephemIter_dates]
+    simp only [Dates.run]
+    apply listRun_all
+    intro x hx
+    exact interpOk_of (grid_head _ _ _) (grid_getLast _ _ _) (by rw [grid_length]; exact hord (by simp))
+      (hlo x hx) (by have := hhi x hx; omega)
+
+example : numIter 20 8 0 60 { dates := some (.list [100, -30, 100, 45]) } false = (true, ⟨[100, -30, 100, 45], .done⟩) := by decide
+example : numIter 20 8 0 60 { dates := some (.list []) } false = (false, ⟨[], .done⟩) := by decide
 
 /-! ## independence from call history -/
 
-/-- what the propagator holds is current: only Sgp4 keeps something derived from the orbit (its satellite record)
-across calls without re-deriving it; nothing is bound for an ephemeris -/
+/-- nothing is ever bound for an ephemeris (it has no propagator). Nothing else has to be maintained from call to call:
+what the propagator derived from an orbit is re-derived at each call by the copying setters (Kepler, J2, KeplerNum, CW),
+read from the object itself (NonePropagator) or checked against the object before use (Sgp4, `refresh` — as far as `Sgp4._state` sees: `Faithful`). -/
 def Inv {V : Type} (w : World V) (s : St V) : Prop :=
   match s.bound with
   | none => True
-  | some (j, v) => w.kind ≠ .ephem ∧ (w.kind = .sgp4 → v = cur w s j)
+  | some _ => w.kind ≠ .ephem
 
-theorem inv_fresh {V : Type} (w : World V) (prev : List (Option Int)) (ver : Nat → Nat) :
+/-- what `Sgp4.propagate` compares of the bound orbit with what its record was computed from determines the orbit value.
+TRUE of an orbit whose coordinates, date, form or frame are changed; FALSE when the user changes a drag term (`bstar`, `ndot`,
+`ndotdot`) in place: they are attributes of the orbit the record depends on, and `Sgp4._state` does not look at them. Vacuous for
+every other propagator. -/
+def Faithful {V : Type} (w : World V) : Prop :=
+  w.kind = .sgp4 → ∀ a b : V, w.sameState a b = true → a = b
+
+theorem faithful_of_not_sgp4 {V : Type} (w : World V) (h : w.kind ≠ .sgp4) : Faithful w := fun hk => absurd hk h
+
+theorem inv_fresh {V : Type} (w : World V) (prev : List (Option Int)) (ver : Nat → Nat × Nat) :
     Inv w ({ prev := prev, ver := ver } : St V) := trivial
 
 theorem bind_ver {V : Type} (w : World V) (s : St V) (i : Nat) : (Iter.bind w s i).ver = s.ver := by
@@ -349,84 +439,122 @@ theorem bind_prev {V : Type} (w : World V) (s : St V) (i : Nat) : (Iter.bind w s
   · rfl
   · split <;> rfl
 
+theorem refresh_ver {V : Type} (w : World V) (s : St V) : (refresh w s).ver = s.ver := by
+  unfold refresh; split
+  · split
+    · split <;> rfl
+    · rfl
+  · rfl
+
+theorem refresh_prev {V : Type} (w : World V) (s : St V) : (refresh w s).prev = s.prev := by
+  unfold refresh; split
+  · split
+    · split <;> rfl
+    · rfl
+  · rfl
+
 theorem bind_inv {V : Type} (w : World V) (s : St V) (i : Nat) (h : Inv w s) : Inv w (Iter.bind w s i) := by
   unfold Iter.bind
   split
   · exact h
   · split
     · exact h
-    · next hk _ => exact ⟨hk, fun _ => rfl⟩
+    · next hk _ => exact hk
 
-/-- after `Orbit.propagate` / `Orbit.iter` have (re)bound the propagator, it works from the CURRENT value of the receiver —
-whatever was bound before, for the setters that keep the object (Sgp4, NonePropagator) and for those that copy -/
-theorem boundVal_bind {V : Type} (w : World V) (s : St V) (i : Nat) (h : Inv w s) :
-    boundVal w (Iter.bind w s i) i = cur w s i := by
-  have hcur : ∀ s' : St V, s'.ver = s.ver → cur w s' i = cur w s i := by intro s' e; simp [cur, e]
+theorem refresh_inv {V : Type} (w : World V) (s : St V) (h : Inv w s) : Inv w (refresh w s) := by
+  unfold refresh
+  split
+  · next hk =>
+    split
+    · split
+      · exact h
+      · show w.kind ≠ .ephem
+        rw [hk]; decide
+    · exact h
+  · exact h
+
+/-- after `Orbit.propagate` / `Orbit.iter` have (re)bound the propagator and `propagate` has checked its record, it works from
+the CURRENT value of the receiver — whatever was bound before, whatever the user changed in place since, for the setters that
+keep the object (Sgp4, NonePropagator) and for those that copy -/
+theorem boundVal_bind {V : Type} (w : World V) (s : St V) (i : Nat) (hF : Faithful w) (h : Inv w s) :
+    boundVal w (refresh w (Iter.bind w s i)) i = cur w s i := by
+  have hcur : ∀ s' : St V, s'.ver = s.ver → ∀ j, cur w s' j = cur w s j := by intro s' e j; simp [cur, e]
   by_cases hn : w.kind = .none
   · unfold boundVal
-    simp only [hn, if_true]; exact hcur _ (bind_ver w s i)
+    simp only [hn, if_true]; exact hcur _ (by rw [refresh_ver, bind_ver]) i
   · by_cases he : w.kind = .ephem
     · have hb : Iter.bind w s i = s := by simp [Iter.bind, he]
-      rw [hb]
+      have hr : refresh w s = s := by simp [refresh, he]
+      rw [hb, hr]
       unfold boundVal
       simp only [hn, if_false]
       unfold Inv at h
       cases hbd : s.bound with
       | none => rfl
-      | some jv => rw [hbd] at h; exact absurd he h.1
+      | some jv => rw [hbd] at h; exact absurd he h
     · by_cases hid : (w.kind.ident && (s.bound.map (·.1) == some i)) = true
       · have hb : Iter.bind w s i = s := by simp [Iter.bind, he, hid]
         rw [hb]
-        unfold boundVal
-        simp only [hn, if_false]
-        unfold Inv at h
+        have hs : w.kind = .sgp4 := by
+          have := (Bool.and_eq_true _ _ ▸ hid).1
+          cases hk : w.kind <;> simp_all [Kind.ident]
         cases hbd : s.bound with
-        | none => rfl
+        | none => rw [hbd] at hid; simp at hid
         | some jv =>
           obtain ⟨j, v⟩ := jv
-          rw [hbd] at h hid
+          rw [hbd] at hid
           simp only [Option.map_some, Bool.and_eq_true, beq_iff_eq, Option.some.injEq] at hid
-          have hs : w.kind = .sgp4 := by
-            have := hid.1
-            cases hk : w.kind <;> simp_all [Kind.ident]
-          simp only [h.2 hs, hid.2]
+          obtain rfl : j = i := hid.2
+          by_cases hv : w.sameState v (cur w s j) = true
+          · have hr : refresh w s = s := by simp [refresh, hs, hbd, hv]
+            rw [hr]
+            simp [boundVal, hn, hbd, hF hs v _ hv]
+          · have hr : refresh w s = { s with bound := some (j, cur w s j) } := by simp [refresh, hs, hbd, hv]
+            rw [hr]
+            simp [boundVal, hn]
       · have hb : Iter.bind w s i = { s with bound := some (i, cur w s i), rebinds := s.rebinds + 1 } := by
           simp [Iter.bind, he, hid]
         rw [hb]
+        have hr : refresh w ({ s with bound := some (i, cur w s i), rebinds := s.rebinds + 1 } : St V)
+            = { s with bound := some (i, cur w s i), rebinds := s.rebinds + 1 } := by
+          unfold refresh
+          split
+          · simp only []
+            split <;> rfl
+          · rfl
+        rw [hr]
         simp [boundVal, hn]
 
-/-- calls other than an in-place modification under Sgp4 keep the invariant -/
-theorem exec_inv {V R : Type} (w : World V) (f : V → Int → R) (cross : V → Int → Int → Bool) (fuel : Nat) (s : St V) (c : Call)
-    (hm : w.kind = .sgp4 → c.isModify = false) (h : Inv w s) : Inv w (exec w f cross fuel s c).1 := by
+/-- every call keeps the invariant — in-place modifications under Sgp4 included -/
+theorem exec_inv {V R : Type} (w : World V) (f : V → Int → R) (cross : V → Int → Int → Bool) (fuel : Nat) (s : St V)
+    (c : Call) (h : Inv w s) : Inv w (exec w f cross fuel s c).1 := by
   cases c with
-  | propagate i d => exact bind_inv w s i h
+  | propagate i d => exact refresh_inv w _ (bind_inv w s i h)
   | iter i a ls consume =>
     unfold exec
     simp only
     split
     · exact bind_inv w s i h
-    · have := bind_inv w s i h
-      unfold Inv at this ⊢
-      exact this
+    · have key : ∀ taken : List Int, Inv w (if taken.isEmpty then Iter.bind w s i else refresh w (Iter.bind w s i)) := by
+        intro taken
+        split
+        · exact bind_inv w s i h
+        · exact refresh_inv w _ (bind_inv w s i h)
+      exact key _
   | modify i =>
     unfold exec Inv at *
-    simp only
-    cases hb : s.bound with
-    | none => trivial
-    | some jv =>
-      rw [hb] at h
-      refine ⟨h.1, fun hs => ?_⟩
-      have := hm hs
-      simp [Call.isModify] at this
+    exact h
+  | modifyMeta i =>
+    unfold exec Inv at *
+    exact h
 
-theorem runHist_inv {V R : Type} (w : World V) (f : V → Int → R) (cross : V → Int → Int → Bool) (fuel : Nat) (hist : List Call)
-    (hm : w.kind = .sgp4 → ∀ c ∈ hist, c.isModify = false) :
-    ∀ s : St V, Inv w s → Inv w (runHist (R := R) w f cross fuel s hist) := by
+theorem runHist_inv {V R : Type} (w : World V) (f : V → Int → R) (cross : V → Int → Int → Bool) (fuel : Nat)
+    (hist : List Call) : ∀ s : St V, Inv w s → Inv w (runHist (R := R) w f cross fuel s hist) := by
   induction hist with
   | nil => intro s h; exact h
   | cons c r ih =>
     intro s h
-    exact ih (fun hs c' hc' => hm hs c' (by simp [hc'])) _ (exec_inv w f cross fuel s c (fun hs => hm hs c (by simp)) h)
+    exact ih _ (exec_inv w f cross fuel s c h)
 
 theorem getD_setPrev_none (prev : List (Option Int)) (ls : List Nat) (j : Nat) (hj : j ∈ ls) : (setPrev prev ls none).getD j none = none := by
   unfold setPrev
@@ -439,59 +567,97 @@ theorem events_nil (cross : Int → Int → Bool) (p : Option Int) : events cros
 /-- fresh objects holding the same orbit values: nothing bound, listeners empty -/
 def freshOf {V : Type} (s : St V) : St V := { prev := List.replicate s.prev.length none, ver := s.ver }
 
+/-- the observable part of an `iter` call, given the value `v` the states are computed from when there are any -/
+theorem iter_result {V R : Type} (w : World V) (f : V → Int → R) (cross : V → Int → Int → Bool) (fuel : Nat) (s : St V)
+    (i : Nat) (a : Args) (ls : List Nat) (consume : Nat) (hF : Faithful w) (h : Inv w s) (hc : consume ≠ 0) :
+    (exec w f cross fuel s (.iter i a ls consume)).2 =
+      (let r := iterRun w fuel i a (!ls.isEmpty)
+       let taken := if r.1 then r.2.dates.take consume else []
+       let prev0 := if r.1 then setPrev s.prev ls none else s.prev
+       ⟨⟨taken, if consume ≤ r.2.dates.length then Fin.fuel else r.2.fin⟩, taken.map (f (cur w s i)),
+        ls.map (fun j => events (cross (cur w s i)) (prev0.getD j none) taken)⟩) := by
+  unfold exec
+  simp only [hc, if_false, bind_prev]
+  by_cases ht : (if (iterRun w fuel i a (!ls.isEmpty)).1 then (iterRun w fuel i a (!ls.isEmpty)).2.dates.take consume else []).isEmpty = true
+  · rw [if_pos ht]
+    rw [List.isEmpty_iff] at ht
+    simp only [ht, List.map_nil, events_nil]
+  · rw [if_neg ht, boundVal_bind w s i hF h]
+
 /-- **propagate_pure** (one call): the observable result of a `propagate` or `iter` call — dates, end, states, events of every
-passed listener — is the same from ANY state of the shared objects (propagator bound to any orbit, listeners holding anything)
-as from fresh objects with the same orbit values. -/
-theorem call_result_pure {V R : Type} (w : World V) (f : V → Int → R) (cross : V → Int → Int → Bool) (fuel : Nat) (s : St V)
-    (c : Call) (h : Inv w s) :
+passed listener — is the same from ANY state of the shared objects (propagator bound to any orbit, record computed from any
+earlier value, listeners holding anything) as from fresh objects with the same orbit values. -/
+theorem call_result_pure {V R : Type} (w : World V) (f : V → Int → R) (cross : V → Int → Int → Bool) (fuel : Nat)
+    (s : St V) (c : Call) (hF : Faithful w) (h : Inv w s) :
     (exec w f cross fuel s c).2 = (exec w f cross fuel (freshOf s) c).2 := by
   have hfresh : Inv w (freshOf s) := trivial
   have hcur : ∀ i, cur w (freshOf s) i = cur w s i := fun i => rfl
   cases c with
   | propagate i d =>
-    simp only [exec, boundVal_bind w s i h, boundVal_bind w _ i hfresh, hcur]
+    simp only [exec, boundVal_bind w s i hF h, boundVal_bind w _ i hF hfresh, hcur]
   | modify i => rfl
+  | modifyMeta i => rfl
   | iter i a ls consume =>
-    unfold exec
-    simp only [boundVal_bind w s i h, boundVal_bind w _ i hfresh, hcur, bind_prev]
     by_cases hc : consume = 0
-    · simp [hc]
-    · simp only [hc, if_false]
-      cases hcl : (iterRun w fuel i a).1 with
+    · simp [exec, hc]
+    · rw [iter_result w f cross fuel s i a ls consume hF h hc, iter_result w f cross fuel _ i a ls consume hF hfresh hc]
+      simp only [hcur]
+      cases hcl : (iterRun w fuel i a (!ls.isEmpty)).1 with
       | true =>
-        have : iterRun w fuel i a = (true, (iterRun w fuel i a).2) := by rw [← hcl]
-        rw [this]
         simp only [if_true]
         congr 1
         apply List.map_congr_left
         intro j hj
         rw [getD_setPrev_none _ _ _ hj, getD_setPrev_none _ _ _ hj]
       | false =>
-        have : iterRun w fuel i a = (false, (iterRun w fuel i a).2) := by rw [← hcl]
-        rw [this]
-        simp only [List.map_nil, Bool.false_eq_true, if_false, events_nil]
+        simp only [Bool.false_eq_true, if_false, List.map_nil, events_nil]
 
-/-- **propagate_pure**: for EVERY history of `propagate` / `iter` calls and of in-place modifications of the orbits by the user
-(any orbits sharing the propagator, any listeners, iterators consumed fully, partly or not at all) the result of the next call
-equals the result of that call on fresh objects holding the current orbit values — provided, for Sgp4, that the history contains
-no in-place modification (`Witness/C08.lean: sgp4_stale_after_modify` shows the hypothesis is needed: known finding). -/
-theorem propagate_pure {V R : Type} (w : World V) (f : V → Int → R) (cross : V → Int → Int → Bool) (fuel nls : Nat)
-    (hist : List Call) (c : Call) (hm : w.kind = .sgp4 → ∀ c ∈ hist, c.isModify = false) :
+/- **propagate_pure**, full statement: for EVERY history of `propagate` / `iter` calls and of in-place modifications of the orbits by
+the user, for every propagator kind, the result of the next call equals the result of that call on fresh objects holding the
+current orbit values.  FALSE of the current code for Sgp4 when a drag term of the orbit (`bstar`, `ndot`, `ndotdot`) is changed in
+place after a first propagation (`Witness/C08.lean: sgp4_stale_after_drag_change`; known finding, proposed_fixes/C08-h):
+    theorem propagate_pure (w : World V) (f) (cross) (fuel nls : Nat) (hist : List Call) (c : Call) :
+      (exec w f cross fuel (runHist w f cross fuel { prev := List.replicate nls none } hist) c).2
+        = (exec w f cross fuel (freshOf (runHist w f cross fuel { prev := List.replicate nls none } hist)) c).2
+Proved below under `Faithful w` (nothing assumed for Kepler, J2, NonePropagator, KeplerNum, CW, Ephem: `propagate_pure_not_sgp4`;
+for Sgp4: the histories change coordinates / date / form / frame of the orbits, not their drag terms). -/
+
+/-- **propagate_pure_partial**: for EVERY history of `propagate` / `iter` calls and of in-place modifications of the orbits by the
+user (any orbits sharing the propagator, any listeners, iterators consumed fully, partly or not at all), the result of the next
+call equals the result of that call on fresh objects holding the current orbit values — provided, for Sgp4, that what it
+compares of an orbit determines the orbit (`Faithful`). In-place changes of the coordinates under Sgp4 are covered (they were
+the exception before c604b3e). -/
+theorem propagate_pure_partial {V R : Type} (w : World V) (f : V → Int → R) (cross : V → Int → Int → Bool) (fuel nls : Nat)
+    (hist : List Call) (c : Call) (hF : Faithful w) :
     let s0 : St V := { prev := List.replicate nls none }
     let s := runHist (R := R) w f cross fuel s0 hist
     (exec w f cross fuel s c).2 = (exec w f cross fuel (freshOf s) c).2 := by
   intro s0 s
-  exact call_result_pure w f cross fuel s c (runHist_inv w f cross fuel hist hm s0 trivial)
+  exact call_result_pure w f cross fuel s c hF (runHist_inv w f cross fuel hist s0 trivial)
+
+/-- **propagate_pure** at full strength for every propagator other than Sgp4 (Kepler, J2, NonePropagator, KeplerNum,
+Clohessy–Wiltshire, Ephem): no hypothesis on the history at all -/
+theorem propagate_pure_not_sgp4 {V R : Type} (w : World V) (f : V → Int → R) (cross : V → Int → Int → Bool) (fuel nls : Nat)
+    (hist : List Call) (c : Call) (hk : w.kind ≠ .sgp4) :
+    let s0 : St V := { prev := List.replicate nls none }
+    let s := runHist (R := R) w f cross fuel s0 hist
+    (exec w f cross fuel s c).2 = (exec w f cross fuel (freshOf s) c).2 :=
+  propagate_pure_partial w f cross fuel nls hist c (faithful_of_not_sgp4 w hk)
+
+-- the hypothesis is satisfiable by an Sgp4 world whose orbit values ARE what Sgp4 compares (object, number of element changes)
+example : Faithful ({ kind := .sgp4, store := fun i k => (i, k.1), sameState := fun a b => a == b, epoch := fun _ => 0 } : World (Nat × Nat)) := by
+  intro _ a b h
+  simpa using h
 
 /-- every yielded state is what a direct propagation of the receiver, as it is now, to that date gives
 (in the model: `f (current value of orbit i) date`) -/
-theorem iter_eq_map_propagate {V R : Type} (w : World V) (f : V → Int → R) (cross : V → Int → Int → Bool) (fuel : Nat) (s : St V)
-    (i : Nat) (a : Args) (ls : List Nat) (consume : Nat) (h : Inv w s) :
+theorem iter_eq_map_propagate {V R : Type} (w : World V) (f : V → Int → R) (cross : V → Int → Int → Bool) (fuel : Nat)
+    (s : St V) (i : Nat) (a : Args) (ls : List Nat) (consume : Nat) (hF : Faithful w) (h : Inv w s) :
     (exec w f cross fuel s (.iter i a ls consume)).2.states
       = (exec w f cross fuel s (.iter i a ls consume)).2.run.dates.map (f (cur w s i)) := by
-  unfold exec
-  simp only [boundVal_bind w s i h]
-  first | rfl | (split <;> rfl)
+  by_cases hc : consume = 0
+  · simp [exec, hc]
+  · rw [iter_result w f cross fuel s i a ls consume hF h hc]
 
 /-! ## ties to the source regenerated on every run -/
 
@@ -503,7 +669,7 @@ theorem ident_table_matches (k : Kind) : Generated.orbitSetterKeepsObject.lookup
   cases k <;> decide
 
 /-- the interpolation order the numerical iterator pads to is `Ephem.DEFAULT_ORDER` of the source -/
-theorem order_matches : ({ kind := .num, store := fun i _ => i, epoch := fun _ => 0 } : World Nat).order = Generated.ephemDefaultOrder := by
+theorem order_matches : ({ kind := .num, store := fun i _ => i, sameState := fun _ _ => true, epoch := fun _ => 0 } : World Nat).order = Generated.ephemDefaultOrder := by
   decide
 
 end BeyondVerif.C08
